@@ -272,6 +272,28 @@ fn monitors(st: &St, exprs: &[String]) -> String {
     if ne > 1 || nt > 1 {
         bad.push(format!("document has {} elements and {} doctypes", ne, nt));
     }
+    // every node of the document names that document as its owner; the document itself has none
+    {
+        fn owners(n: &XmlNode, doc_id: usize, bad: &mut Vec<String>, depth: usize) {
+            if depth > 300 {
+                return;
+            }
+            let l = n.child_nodes();
+            for i in 0..l.length() {
+                if let Some(k) = l.item(i) {
+                    match k.owner_document() {
+                        Some(d) if d.as_node().id() == doc_id => {}
+                        other => bad.push(format!("owner_document of node {} is {:?}", k.id(), other.map(|d| d.as_node().id()))),
+                    }
+                    owners(&k, doc_id, bad, depth + 1);
+                }
+            }
+        }
+        if root.owner_document().is_some() {
+            bad.push("the document node has an owner document".to_string());
+        }
+        owners(&root, root.id(), &mut bad, 0);
+    }
     // another view of the same tree: getElementsByTagName("*") lists the elements below the document in pre-order
     {
         fn pre(n: &XmlNode, out: &mut Vec<usize>, depth: usize) {
@@ -294,6 +316,39 @@ fn monitors(st: &St, exprs: &[String]) -> String {
         let got: Vec<usize> = (0..list.length()).filter_map(|i| list.item(i)).map(|x| x.id()).collect();
         if got != walk {
             bad.push(format!("get_elements_by_tag_name(*) lists {:?}, the child lists give {:?}", got, walk));
+        }
+        // ... and by name, from the document and from the document element (its descendants only)
+        if let Ok(re) = st.doc.document_element() {
+            fn named(n: &XmlNode, name: &str, out: &mut Vec<usize>, depth: usize) {
+                if depth > 300 {
+                    return;
+                }
+                let l = n.child_nodes();
+                for i in 0..l.length() {
+                    if let Some(k) = l.item(i) {
+                        if k.node_type() == NodeType::Element && (name == "*" || k.node_name() == name) {
+                            out.push(k.id());
+                        }
+                        named(&k, name, out, depth + 1);
+                    }
+                }
+            }
+            for name in ["a", "b", re.tag_name().as_str(), "*"] {
+                let mut w1: Vec<usize> = vec![];
+                named(&root, name, &mut w1, 0);
+                let l1 = st.doc.get_elements_by_tag_name(name);
+                let g1: Vec<usize> = (0..l1.length()).filter_map(|i| l1.item(i)).map(|x| x.id()).collect();
+                let mut w2: Vec<usize> = vec![];
+                named(&re.as_node(), name, &mut w2, 0);
+                let l2 = re.get_elements_by_tag_name(name);
+                let g2: Vec<usize> = (0..l2.length()).filter_map(|i| l2.item(i)).map(|x| x.id()).collect();
+                // (the element's own list: whether the element itself is listed when it matches is not part of any
+                // property checked here - the library lists it -, the descendants and their order are)
+                let g2d: Vec<usize> = g2.iter().cloned().filter(|x| *x != re.as_node().id()).collect();
+                if g1 != w1 || g2d != w2 {
+                    bad.push(format!("get_elements_by_tag_name({}) document {:?} vs {:?}, element {:?} vs {:?}", name, g1, w1, g2, w2));
+                }
+            }
         }
     }
     // the entity and notation maps of the document type are read-only: NO_MODIFICATION_ALLOWED_ERR, nothing changes
